@@ -44,6 +44,12 @@ def compare_named_outputs(prog, circ, ref_env, names, label="", check_type=True)
             if lang.known_type(want.ty) and (check_type or adv in ("bundle", None) or (adv or "").startswith("signal-e")):
                 sig = want.ty
                 if adv not in (sig, "bundle", None) and not (adv or "").startswith("signal-e"):
+                    if want.v == 0:
+                        # a zero value is carried on no signal at all: nothing to be mistyped; both names must read 0
+                        if net.get(adv, 0) != 0 or net.get(sig, 0) != 0:
+                            fails.append({"sig": f"value:{how}:{shape(name)}", "detail": {"name": name, "signal": adv, "want": 0,
+                                                                                   "got": net.get(adv, 0) or net.get(sig, 0), "net": net, "label": label}})
+                        continue
                     fails.append({"sig": f"type:{how}:{shape(name)}", "detail": {"name": name, "want_type": sig, "advertised": adv, "label": label}})
                     continue
             else:
